@@ -19,6 +19,11 @@ func init() {
 			{lean: "skel_ClientOffers", dir: "broker", name: "IPC.ClientOffers", calls: `matchSnowflake|GetBridgeInfo|^sendClientResponse$`},
 			{lean: "skel_ProxyAnswers", dir: "broker", name: "IPC.ProxyAnswers", assigns: `^snowflake, ok$|^success$`},
 			{lean: "skel_ProxyPollsTail", dir: "broker", name: "IPC.ProxyPolls", calls: `RequestOffer|GetBridgeInfo|EncodePollResponse`},
+			// the registration accounting of Props/C04Reg: gauge Inc / Dec, id-map set / delete, heap push / remove
+			{lean: "reg_AddSnowflake", dir: "broker", name: "BrokerContext.AddSnowflake", calls: `AvailableProxies.*\.(Inc|Dec|Add|Sub|Set)$`, assigns: `idToSnowflake`},
+			{lean: "reg_Broker", dir: "broker", name: "BrokerContext.Broker", calls: `AvailableProxies.*\.(Inc|Dec|Add|Sub|Set)$`, assigns: `idToSnowflake`},
+			{lean: "reg_ClientOffers", dir: "broker", name: "IPC.ClientOffers", calls: `AvailableProxies.*\.(Inc|Dec|Add|Sub|Set)$|matchSnowflake`, assigns: `idToSnowflake`},
+			{lean: "reg_ProxyAnswers", dir: "broker", name: "IPC.ProxyAnswers", calls: `AvailableProxies.*\.(Inc|Dec|Add|Sub|Set)$`, assigns: `idToSnowflake`},
 			{lean: "skel_heap_Less", dir: "broker", name: "SnowflakeHeap.Less", returns: true},
 			{lean: "skel_heap_Swap", dir: "broker", name: "SnowflakeHeap.Swap", assigns: `.`},
 			{lean: "skel_heap_Push", dir: "broker", name: "SnowflakeHeap.Push", assigns: `.`},
